@@ -10,6 +10,7 @@ INTS = ["int", "int8", "int16", "int32", "int64", "uint", "uint8", "uint16", "ui
 KNAME = {"int": "KInt", "int8": "KInt8", "int16": "KInt16", "int32": "KInt32", "int64": "KInt64", "uint": "KUint",
          "uint8": "KUint8", "uint16": "KUint16", "uint32": "KUint32", "uint64": "KUint64", "uintptr": "KUintptr"}
 NAMED_BASIC = {"MyInt": "int", "MyI8": "int8", "MyU16": "uint16", "MyStr": "string", "MyF64": "float64", "MyBool": "bool"}
+NAMED_OTHER = {"MyInts": {"k": "slice", "e": {"k": "int"}}, "MyBytes": {"k": "slice", "e": {"k": "uint8"}}}
 
 
 def T(k, **kw):
@@ -57,13 +58,15 @@ def type_sexp(td):
     if k == "reg":
         if td["name"] in NAMED_BASIC:
             return type_sexp(T(NAMED_BASIC[td["name"]]))
+        if td["name"] in NAMED_OTHER:
+            return type_sexp(NAMED_OTHER[td["name"]])
         return "(struct %s)" % hx(td["name"].encode())
     raise ValueError("type_sexp %r" % (td,))
 
 
 def struct_names(td, acc):
     k = td["k"]
-    if k == "reg" and td["name"] not in NAMED_BASIC:
+    if k == "reg" and td["name"] not in NAMED_BASIC and td["name"] not in NAMED_OTHER:
         acc.add(td["name"])
     for sub in ("e", "key"):
         if sub in td and isinstance(td[sub], dict):
@@ -79,12 +82,12 @@ def tenv_sexp(structs, roots):
         if n in seen or n not in structs:
             continue
         seen.add(n)
-        for f in structs[n]:
+        for f in (structs[n] or []):
             for m in struct_names(f["t"], set()):
                 todo.append(m)
     out = []
     for n in sorted(seen):
-        fs = " ".join("(%s %s)" % (hx(f["alias"].encode()), type_sexp(f["t"])) for f in structs[n])
+        fs = " ".join("(%s %s)" % (hx(f["alias"].encode()), type_sexp(f["t"])) for f in (structs[n] or []))
         out.append("(%s %s)" % (hx(n.encode()), fs) if fs else "(%s)" % hx(n.encode()))
     return "(tenv %s)" % " ".join(out) if out else "(tenv)"
 
@@ -259,3 +262,159 @@ def dest_types():
 
 def tag_class(w):
     return w[0]
+
+
+# ---------------------------------------------------------------------------------------- containers
+
+INT, STR, F64 = T("int"), T("string"), T("float64")
+BYTES = Slice(T("uint8"))
+
+
+def cls(name, fields, body):
+    return ("c", S(name), [S(f) for f in fields], body)
+
+
+def obj(k, *vals):
+    return ("o", k, list(vals))
+
+
+def lst(*ws):
+    return ("a", list(ws))
+
+
+def mp(*ws):
+    return ("m", list(ws))
+
+
+def d(n):
+    return ("dig", n)
+
+
+def s(x):
+    return ("s", S(x))
+
+
+def u(x):
+    return ("u", S(x))
+
+
+LIST_TOKENS = [
+    lst(), lst(d(1)), lst(d(1), d(2), d(3)), lst(("i", 300), ("i", -5)), lst(("l", 2 ** 40)), lst(s("ab"), s("cd")),
+    lst(u("a"), ("e",)), lst(("n",), d(1)), lst(("d", b"1.5"), d(2)), lst(("t",), ("f",)), lst(lst(d(1)), lst()),
+    lst(lst(d(1), d(2)), lst(d(3), d(4))), lst(d(1), s("two"), ("d", b"3.5"), ("n",), ("t",)), lst(d(1), d(2), d(3), d(4), d(5)),
+    lst(("b", b"ab"), ("b", b"")), lst(mp(u("a"), d(1))), lst(("i", 255), ("i", 256)), lst(d(7), d(7)),
+    lst(("D", 2020, 1, 2, True), ("T", 1, 2, 3, [], False)), lst(("g", GUID)), lst(lst(lst(d(1)))),
+]
+LIST_TYPES = [Slice(INT), Slice(T("int8")), Slice(T("uint8")), Slice(STR), Slice(IFACE), Slice(F64), Slice(T("bool")),
+              Array(3, INT), Array(2, STR), Array(4, T("uint8")), Array(0, INT), Array(2, IFACE),
+              Map(INT, STR), Map(STR, INT), Map(F64, INT), Map(T("uint8"), IFACE), Map(IFACE, IFACE), Map(T("bool"), INT),
+              Map(T("complex128"), INT), LIST, IFACE, Slice(Ptr(INT)), Slice(Slice(INT)), Slice(Slice(Slice(INT))),
+              Slice(Array(2, INT)), Ptr(Slice(INT)), Ptr(Array(2, INT)), Slice(BYTES), Slice(T("time")), Slice(T("uuid")),
+              Slice(Map(STR, INT)), T("complex64"), T("complex128"), Ptr(T("complex128")), Slice(T("complex128")),
+              Reg("Inner"), Reg("MyInts"), Slice(T("bigint")), Slice(Ptr(T("bigint")))]
+
+MAP_TOKENS = [
+    mp(), mp(u("a"), d(1)), mp(u("a"), d(1), u("b"), d(2)), mp(d(1), s("one"), d(2), s("two")), mp(s("x"), d(5), s("y"), s("why")),
+    mp(s("y"), s("why"), s("x"), d(5), s("zz"), d(9)), mp(u("x"), d(1)), mp(s("k"), lst(d(1), d(2)), s("l"), lst(d(3), d(4))),
+    mp(s("k"), lst(d(1), d(2)), s("l"), lst(d(3))), mp(("d", b"1.5"), d(1)), mp(("n",), d(1)), mp(("t",), d(1), ("f",), d(0)),
+    mp(lst(), d(1)), mp(("b", b"k"), d(1)), mp(mp(), d(1)), mp(d(1), d(1), ("i", 1), d(2)), mp(u("a"), mp(u("b"), mp())),
+    mp(s("a"), ("n",), s("b"), d(2)), mp(d(5), d(1), s("5"), d(2)), mp(("D", 2020, 1, 2, True), d(1)), mp(("g", GUID), d(1)),
+    mp(s("x"), d(1), s("x"), d(2)), mp(("i", 300), d(1), ("i", 44), d(2)),
+]
+MAP_TYPES = [Map(STR, INT), Map(INT, STR), Map(STR, IFACE), Map(IFACE, IFACE), Map(STR, STR), Map(T("int8"), INT), Map(F64, INT),
+             Map(STR, Slice(INT)), Map(STR, Array(2, INT)), Map(STR, Ptr(INT)), Map(STR, Map(STR, IFACE)), Map(T("bool"), INT),
+             Map(T("time"), INT), Map(T("uuid"), INT), Map(Ptr(STR), INT), Map(Array(1, INT), INT),
+             Reg("Inner"), Ptr(Reg("Inner")), Reg("Scalars"), Reg("Tagged"), IFACE, Slice(INT), LIST, INT, STR, Ptr(Map(STR, INT))]
+
+
+def inner_obj(fields, vals):
+    return cls("Inner", fields, obj(0, *vals))
+
+
+OBJ_TOKENS = [
+    inner_obj(["x", "y"], [d(1), s("why")]),                               # as declared
+    inner_obj(["y", "x"], [s("why"), d(1)]),                               # reordered
+    inner_obj(["x", "extra", "y"], [d(1), lst(s("skipped"), d(2)), s("why")]),  # extra field (with a referable inside)
+    inner_obj(["x"], [d(1)]),                                              # missing field
+    inner_obj([], []),                                                     # no fields
+    inner_obj(["X", "Y"], [d(1), s("why")]),                               # names in another case: unknown
+    inner_obj(["x", "y"], [s("12"), d(7)]),                                # convertible field values
+    inner_obj(["x", "y"], [s("abc"), d(7)]),                               # field value not convertible
+    inner_obj(["x", "y"], [("n",), ("n",)]),
+    cls("Zzz", ["x", "y"], obj(0, d(1), s("why"))),                        # unregistered class name
+    cls("Zzz", ["p", "q"], obj(0, d(1), lst(d(2)))),
+    cls("One", ["v"], obj(0, ("i", 77))),
+    cls("Tagged", ["x", "y", "e", "longer_name", "c", "d"], obj(0, d(1), d(2), d(3), d(4), d(5), d(6))),
+    cls("Node2", ["v", "next"], obj(0, d(1), obj(0, d(2), ("n",)))),        # nested object of the same class
+    cls("Inner", ["x", "y"], cls("One", ["v"], lst(obj(0, d(1), s("a")), obj(1, d(9)), obj(0, d(2), s("b"))))),
+    cls("Outer", ["x", "y", "z", "p", "l", "m", "v"],
+        obj(0, d(1), s("in"), d(3), cls("Inner", ["x", "y"], obj(1, d(4), s("p"))), lst(obj(1, d(5), s("l0"))),
+            mp(s("k"), obj(1, d(6), s("mk"))), obj(1, d(7), s("v")))),
+    cls("Scalars", ["i8", "u8", "f32", "s", "b"], obj(0, ("i", 300), ("i", -1), ("d", b"0.1"), d(5), ("i", 2))),
+]
+OBJ_TYPES = [Reg("Inner"), Ptr(Reg("Inner")), Ptr(Ptr(Reg("Inner"))), IFACE, Map(STR, IFACE), Map(STR, INT), Reg("One"), Reg("Tagged"),
+             Reg("Node2"), Ptr(Reg("Node2")), Slice(Reg("Inner")), Slice(Ptr(Reg("Inner"))), Slice(IFACE), Reg("Outer"), Reg("Scalars"),
+             Reg("Empty"), INT, STR, Slice(INT), Map(INT, IFACE)]
+
+
+def ref_cases():
+    """(wire, type) pairs that need reference mode: 'r' to every referable construct into many destinations."""
+    out = []
+    hello = s("hello")
+    for t in [Slice(STR), Slice(IFACE), Slice(Ptr(STR)), Array(3, IFACE), Slice(BYTES), Slice(INT), LIST, Map(INT, STR), IFACE]:
+        out.append((lst(hello, ("r", 1), ("r", 1)), t))
+    for t in [Slice(INT), Slice(T("int8")), Slice(T("uint16")), Slice(F64), Slice(T("float32")), Slice(T("bigint")), Slice(Ptr(T("bigint"))),
+              Slice(T("bigfloat")), Slice(T("bigrat")), Slice(T("complex128")), Slice(STR), Slice(IFACE), Slice(Ptr(INT)), Slice(T("bool")),
+              Slice(T("time")), Slice(T("uuid"))]:
+        out.append((lst(s("12"), ("r", 1)), t))
+        out.append((lst(s("300"), ("r", 1)), t))
+        out.append((lst(s("abc"), ("r", 1)), t))
+    for t in [Slice(T("bool")), Slice(IFACE)]:
+        out.append((lst(s("true"), ("r", 1)), t))
+    for t in [Slice(T("time")), Slice(STR), Slice(IFACE)]:
+        out.append((lst(s("2020-01-02 03:04:05"), ("r", 1)), t))
+    for t in [Slice(T("uuid")), Slice(STR), Slice(IFACE), Slice(BYTES)]:
+        out.append((lst(s(GUID), ("r", 1)), t))
+    for t in [Slice(BYTES), Slice(STR), Slice(IFACE), Slice(Ptr(BYTES)), Slice(INT), Slice(T("uuid"))]:
+        out.append((lst(("b", b"ab"), ("r", 1)), t))
+    for tok in [("D", 2020, 1, 2, True), ("DT", 2020, 1, 2, 3, 4, 5, [6], False), ("T", 1, 2, 3, [], False)]:
+        for t in [Slice(T("time")), Slice(Ptr(T("time"))), Slice(IFACE), Slice(STR), Slice(INT), Array(2, T("time"))]:
+            out.append((lst(tok, ("r", 1)), t))
+    for t in [Slice(T("uuid")), Slice(Ptr(T("uuid"))), Slice(IFACE), Slice(STR), Slice(BYTES), Slice(INT)]:
+        out.append((lst(("g", GUID), ("r", 1)), t))
+    # references to containers: alias or copy by converter
+    inner = lst(d(1), d(2))
+    for t in [Slice(Slice(INT)), Slice(IFACE), Array(2, Slice(INT)), Slice(Ptr(Slice(INT))), Slice(Array(2, INT)), Slice(STR), Slice(INT),
+              Slice(Slice(T("int8"))), LIST]:
+        out.append((lst(inner, ("r", 1)), t))
+        out.append((lst(inner, ("r", 1), ("r", 1)), t))
+    m1 = mp(u("a"), d(1))
+    for t in [Slice(Map(STR, INT)), Slice(IFACE), Slice(Ptr(Map(STR, INT))), Slice(Map(STR, IFACE)), Slice(Reg("Inner")), Slice(INT)]:
+        out.append((lst(m1, ("r", 1)), t))
+    o1 = cls("Inner", ["x", "y"], lst(obj(0, d(1), s("why")), ("r", 3)))     # refs: 0 list, 1 "x", 2 "y", 3 object, 4 "why"
+    for t in [Slice(Ptr(Reg("Inner"))), Slice(Reg("Inner")), Slice(IFACE), Array(2, Ptr(Reg("Inner"))), Slice(Map(STR, IFACE)), Slice(STR)]:
+        out.append((o1, t))
+    # class field names are referable: r2 is the string "y"
+    out.append((cls("Inner", ["x", "y"], obj(0, d(1), ("r", 1))), Reg("Inner")))
+    out.append((cls("Inner", ["x", "y"], obj(0, d(1), ("r", 1))), IFACE))
+    out.append((cls("Inner", ["x", "y"], obj(0, ("r", 0), s("a"))), Reg("Inner")))
+    # cycles
+    out.append((cls("Node2", ["v", "next"], obj(0, d(1), ("r", 2))), Ptr(Reg("Node2"))))
+    out.append((cls("Node2", ["v", "next"], obj(0, d(1), ("r", 2))), IFACE))
+    out.append((cls("Node2", ["next", "v"], obj(0, ("r", 2), d(1))), Ptr(Reg("Node2"))))
+    out.append((cls("Node2", ["v", "next"], obj(0, d(1), obj(0, d(2), ("r", 2)))), Ptr(Reg("Node2"))))
+    out.append((cls("Node", ["next", "v"], obj(0, ("r", 2), d(5))), Ptr(Reg("Node"))))
+    out.append((lst(("r", 0)), Slice(IFACE)))
+    out.append((lst(("r", 0)), IFACE))
+    out.append((mp(u("a"), ("r", 0)), Map(STR, IFACE)))
+    out.append((mp(u("a"), ("r", 0)), IFACE))
+    # an object read as a map, referenced again (typed map destination)
+    out.append((cls("Zzz", ["x"], lst(obj(0, d(1)), ("r", 2))), Slice(IFACE)))
+    out.append((mp(u("a"), cls("Zzz", ["x"], obj(0, d(1))), u("b"), ("r", 2)), Reg("SM")))
+    # a shared string inside map values and keys
+    out.append((mp(s("kk"), s("vv"), ("r", 2), ("r", 1)), Map(STR, STR)))
+    out.append((mp(s("kk"), s("vv"), ("r", 2), ("r", 1)), IFACE))
+    # bytes written as a list of small integers, then referenced
+    out.append((lst(lst(d(1), ("i", 200)), ("r", 1)), Slice(BYTES)))
+    out.append((lst(lst(s("12"), ("i", 200)), ("r", 1), ("r", 2)), Slice(IFACE)))
+    return out
